@@ -1157,6 +1157,21 @@ def make_builtins(I):
     def _divmod(I_, args, kw):
         return (binop(I_, ast.FloorDiv(), args[0], args[1]), binop(I_, ast.Mod(), args[0], args[1]))
 
+    def _radix(name, f):
+        def g(I_, args, kw):
+            v = args[0]
+            if isinstance(v, Instance) and v.cls.is_intenum:
+                v = v.attrs["value"]
+            if isinstance(v, int):
+                return f(v)
+            if isinstance(v, Sym):
+                return SymText(v, name)
+            I_.raise_("TypeError", "'%s' object cannot be interpreted as an integer" % _tn(v))
+        B[name] = NativeFn(name, g)
+    _radix("hex", hex)
+    _radix("oct", oct)
+    _radix("bin", bin)
+
     @fn("chr")
     def _chr(I_, args, kw):
         if isinstance(args[0], int):
@@ -1260,12 +1275,21 @@ def _convert(I, tname, args, kw):
         if isinstance(v, (bytes, SymBytes)) and len(args) > 1:
             return call_native_method(I, v, "decode", list(args[1:]), kw)
         return to_str(I, v)
+    if tname == "bytearray":
+        tname = "bytes"       # bytearray is only used as an intermediate of bytes(bytearray(list)) in geckolib
     if tname == "bytes":
         if isinstance(v, (bytes, SymBytes)):
             return v
         if is_plain(v):
             try:
                 return bytes(*args)
+            except (ValueError, TypeError) as e:
+                reraise_native(I, e)
+        if isinstance(v, range):
+            v = list(v)
+        if isinstance(v, (list, tuple)) and is_plain(v):
+            try:
+                return bytes(v)
             except (ValueError, TypeError) as e:
                 reraise_native(I, e)
         if isinstance(v, (list, tuple)):
@@ -1916,8 +1940,25 @@ def make_stub_modules(I):
     m.ns["queues"] = q
     m.ns["Queue"] = Q
 
-    for n in ["os", "glob", "readline", "sys", "traceback", "pathlib", "json", "ast"]:
+    for n in ["os", "glob", "readline", "sys", "traceback", "pathlib", "json"]:
         mod(n)
+    m = mod("ast")
+    if "SyntaxError" not in B:
+        se = ClassObj("SyntaxError", [B["Exception"]], {}, None, "SyntaxError")
+        se.is_exc = True
+        B["SyntaxError"] = se
+
+    def literal_eval(I_, args, kw):
+        import ast as _ast
+        if not (len(args) == 1 and isinstance(args[0], str)):
+            raise Unsupported("ast.literal_eval of a symbolic / non-text argument")
+        try:
+            return _ast.literal_eval(args[0])     # pure function of a concrete string: partial evaluation
+        except SyntaxError as e:
+            I_.raise_("SyntaxError", str(e))
+        except (ValueError, TypeError, MemoryError, RecursionError) as e:
+            I_.raise_("ValueError", str(e))
+    m.ns["literal_eval"] = NativeFn("ast.literal_eval", literal_eval)
     m = mod("cmd")
     m.ns["Cmd"] = ClassObj("Cmd", [B["object"]], {}, m, "cmd.Cmd")
     m = mod("random")
